@@ -256,12 +256,6 @@ theorem fire_order : FireOrderStmt Cfg.repaired := by
   intro own beh hb fuel wf ev st st' r h hex
   exact runEvent_spec own beh hb h hex
 
-theorem evLive_cons_occBegin {ev : Int} {log : List Ev} {k o : Nat} {ev' : Int} {wf : Bool} :
-    evLive ev (Ev.occBegin o ev' wf :: log) k ↔ evLive ev log k := by
-  unfold evLive
-  rw [liveAt_cons (by simp [Ev.affects])]
-  simp
-
 /-- Exactly once: a binding live for the event when the occurrence starts and still live for it when the occurrence
     ends (no handler having claimed the event) was delivered to exactly once in it. -/
 theorem fire_exactly_once (own : Owner) (beh : Behaviour) (hb : NoDestroy beh) (fuel : Nat) (wf : Bool) (ev : Int)
@@ -299,44 +293,6 @@ theorem chain_in_binding_order_inv (st : St) (h : Tickit.Bindings.Inv st) :
 
 Each history below is the minimal replay stored under `corpus/C16/`; the real library reproduces every one of
 them through the harness (see `known/C16.json`). -/
-
-def logOf : Res St → List Ev
-  | .ok st => st.log
-  | _ => []
-
-def isOk : Res St → Bool
-  | .ok _ => true
-  | _ => false
-
-def isUb : Res St → Bool
-  | .ub _ => true
-  | _ => false
-
-theorem runs_of_isOk {cfg : Cfg} {own : Owner} {beh : Behaviour} {fuel : Nat} {ops : List Op}
-    (h : isOk (execOps cfg own beh fuel ops St.init) = true) :
-    ∃ st, Runs cfg own beh fuel ops st ∧ st.log = logOf (execOps cfg own beh fuel ops St.init) := by
-  unfold Runs
-  cases hc : execOps cfg own beh fuel ops St.init with
-  | ok st => exact ⟨st, rfl, rfl⟩
-  | ub w => rw [hc] at h; cases h
-  | outOfFuel => rw [hc] at h; cases h
-
-def plain : BFlags := ⟨false, false, false⟩
-def oneshot : BFlags := ⟨false, false, true⟩
-def wantsUnbind : BFlags := ⟨true, false, false⟩
-
-/-- handler 0 emits event 1 again at its first invocation -/
-def behReemit : Behaviour := fun h n => if h = 0 ∧ n = 0 then ⟨[.emit 1], 0⟩ else ⟨[], 0⟩
-/-- handler 0 unbinds its own binding at its first two invocations -/
-def behSelfTwice : Behaviour := fun h n => if h = 0 ∧ n ≤ 1 then ⟨[.unbindSelf], 0⟩ else ⟨[], 0⟩
-/-- handler 0 binds handler 1 `FIRST` at its first invocation -/
-def behBindFirst : Behaviour := fun h n => if h = 0 ∧ n = 0 then ⟨[.bind 1 true plain 1], 0⟩ else ⟨[], 0⟩
-def behNone : Behaviour := fun _ _ => ⟨[], 0⟩
-
-theorem noDestroy_behReemit : NoDestroy behReemit := by intro h n; unfold behReemit; split <;> simp
-theorem noDestroy_behSelfTwice : NoDestroy behSelfTwice := by intro h n; unfold behSelfTwice; split <;> simp
-theorem noDestroy_behBindFirst : NoDestroy behBindFirst := by intro h n; unfold behBindFirst; split <;> simp
-theorem noDestroy_behNone : NoDestroy behNone := by intro h n; simp [behNone]
 
 /-- `corpus/C16/oneshot_reentrant.ops`: handler 0 re-emits; the one-shot binding after it runs in the nested
     occurrence and again when the outer walker reaches its tombstone (which kept `evindex`). -/
@@ -440,16 +396,6 @@ example :
         | .ok st' => some (keys st.list, enters (st'.log.take (st'.log.length - st.log.length)))
         | _ => none)
      | _ => none) = some ([3, 0, 1, 2], [(1, 6), (0, 6), (3, 6)]) := by decide
-
-/-- handler 0, when first run, unbinds slot 1 and binds handler 3 at the back -/
-def behMutate : Behaviour := fun h n => if h = 0 ∧ n = 0 then ⟨[.unbind 1, .bind 1 false plain 3], 0⟩ else ⟨[], 0⟩
-
-theorem noDestroy_behMutate : NoDestroy behMutate := by intro h n; unfold behMutate; split <;> simp
-
-/-- three bindings of event 1: slots 0 and 1 at the back, slot 2 `FIRST` -/
-def stThree : St := bindEvent (bindEvent (bindEvent St.init 1 false plain 0) 1 false plain 1) 1 true plain 2
-
-theorem inv_stThree : Tickit.Bindings.Inv stThree := ((Inv.init.of_bind _ _ _ _).of_bind _ _ _ _).of_bind _ _ _ _
 
 /-- `fire_order` is not vacuous: from the chain [2, 0, 1] an occurrence whose second handler unbinds the third binding
     and appends a fourth delivers to 2, 0 and the new binding 3 — not to 1. -/
